@@ -93,10 +93,14 @@ def _decl_at(path: Path, line: int) -> str:
     return "?"
 
 
-def lake_build(targets: list[str]) -> BuildResult:
-    """Build the driver and the given Lean modules; map errors to declarations."""
+def lake_build(targets: list[str], before=None) -> BuildResult:
+    """Build the driver and the given Lean modules; map errors to declarations.
+    `before` (the T1 regeneration of Generated/*.lean) runs under the same lock as the build, so that
+    concurrent checks — possibly against different checkouts of dask-expr — never build each other's tables."""
     t0 = time.time()
     with flock(LEAN / ".build.lock"):
+        if before is not None:
+            before()
         rc0, out0 = sh(["lake", "build", "dxdriver"], cwd=LEAN, timeout=3000)
         rc, out = sh(["lake", "build"] + targets, cwd=LEAN, timeout=3000)
     broken = []
@@ -315,17 +319,18 @@ def run_property(pid: str, tier: str, seed: int) -> int:
     broken = []  # obligations / correspondences that no longer check
     machinery_errors = []
 
-    # 1. T1 regeneration
+    # 1. T1 regeneration + 2. build (one critical section)
     gen_info = {}
-    try:
-        from harness import extract
 
-        gen_info = extract.regenerate(getattr(mod, "GENERATED", []))
-    except Exception:
-        machinery_errors.append("extract: " + traceback.format_exc()[-800:])
+    def _regen():
+        try:
+            from harness import extract
 
-    # 2. build
-    b = lake_build(mod.LEAN_MODULES)
+            gen_info.update(extract.regenerate(getattr(mod, "GENERATED", [])))
+        except Exception:
+            machinery_errors.append("extract: " + traceback.format_exc()[-800:])
+
+    b = lake_build(mod.LEAN_MODULES, before=_regen)
     if not DRIVER.exists():
         print(f"ERROR driver not built\n{b.log[-2000:]}")
         return 2
